@@ -210,4 +210,14 @@ func (*BlockingStrategy).ProcessData
   modifies bs.stream.mInputDropped.val, ghost(sends), ghost(dones), ghost(timeouts_timer)
   ensures enqueued-once-or-counted-as-dropped-or-stopping: (ghost(sends) - old(ghost(sends))) + (bs.stream.mInputDropped.val - old(bs.stream.mInputDropped.val)) == 1 || (old(bs.stream.stopped) == 1 || bs.stream.dataChan == nil || ghost(dones) > old(ghost(dones))) && ghost(sends) == old(ghost(sends)) && bs.stream.mInputDropped.val == old(bs.stream.mInputDropped.val)
   ensures block-without-timeout-never-drops: bs.stream.blockingTimeout <= 0 ==> bs.stream.mInputDropped.val == old(bs.stream.mInputDropped.val)
+
+func (*Stream).Stop
+  props C19
+  modifies *
+  before Unlock producers-see-nil-after-stop: wheld(s.dataChanMux) ==> s.dataChan == nil
+
+func (*StreamFactory).createStreamInstance
+  props C19
+  modifies *
+  ensures fresh(result)
 @*/
